@@ -2580,6 +2580,27 @@ func (c *Ctx) GoroutineErrorsKept(pkg string) []core.Ob {
 
 func (c *Ctx) GateRepliesRead() []core.Ob {
 	var obs []core.Ob
+	// initialisers of constants declared in the two packages (const x = packetid.Y)
+	localConstInit := map[*types.Const]ast.Expr{}
+	for _, pk := range c.P.Pkgs {
+		if r := core.Rel(pk.PkgPath); r != "bot" && r != "server" {
+			continue
+		}
+		for _, f := range pk.Syntax {
+			ast.Inspect(f, func(n ast.Node) bool {
+				vs, ok := n.(*ast.ValueSpec)
+				if !ok {
+					return true
+				}
+				for i, nm := range vs.Names {
+					if k, ok := pk.TypesInfo.Defs[nm].(*types.Const); ok && i < len(vs.Values) {
+						localConstInit[k] = vs.Values[i]
+					}
+				}
+				return true
+			})
+		}
+	}
 	// the name of a packet id constant of data/packetid the expression denotes ("" otherwise)
 	idName := func(info *types.Info, e ast.Expr) string {
 		for {
@@ -2595,6 +2616,15 @@ func (c *Ctx) GateRepliesRead() []core.Ob {
 			case *ast.SelectorExpr:
 				if k, ok := info.Uses[x.Sel].(*types.Const); ok && k.Pkg() != nil && strings.HasSuffix(k.Pkg().Path(), "/data/packetid") {
 					return k.Name()
+				}
+				return ""
+			case *ast.Ident:
+				// a local constant that stands for one: const ackID = packetid.ServerboundConfigFinishConfiguration
+				if k, ok := info.Uses[x].(*types.Const); ok {
+					if init := localConstInit[k]; init != nil {
+						e = init
+						continue
+					}
 				}
 				return ""
 			default:
